@@ -325,7 +325,11 @@ pub fn check(case: &GlmCase, obs: &mut Obs) {
         Lk::Logit => Link::Logit,
     };
     let xa = to_array2(&d.x, d.p);
-    let ds = DatasetBase::new(xa.clone(), Array1::from(d.y.clone()));
+    // the records reach `fit` as a view in the memory layout of the case (the logical matrix is `xa`)
+    let mem = crate::mem::train_mem(&d.x);
+    obs.class(crate::mem::mem_name(mem));
+    let backing = crate::mem::backing(&xa, mem, 1.0e30);
+    let ds = DatasetBase::new(crate::mem::view_of(&backing, mem, d.x.len(), d.p), Array1::from(d.y.clone()));
     // options whose bit is set in `unset` stay at their defaults; the oracle above already uses the default values.
     // fit_intercept may only stay unset when the case did not ask for "no intercept" (d.intercept is then true anyway)
     let build = |max_iter: Option<usize>| {
